@@ -435,8 +435,8 @@ UCells == {<<"inside the arm at -x", <<-5, 1, -1>>, <<-3, 4, 1>>>>, <<"inside th
            <<"across the outer side face of the arm at +x", <<5, 1, -1>>, <<8, 4, 1>>>>, <<"across the top face of the arm at -x", <<-5, 1, 1>>, <<-3, 4, 3>>>>,
            <<"in the gap between the arms", <<-1, 1, -1>>, <<1, 4, 1>>>>, <<"across the bottom of the gap", <<-1, -3, -1>>, <<1, 1, 1>>>>,
            <<"gap and both inner faces", <<-3, 1, -1>>, <<3, 3, 1>>>>, <<"enclosing the body", <<-9, -8, -5>>, <<8, 9, 4>>>>}
-UQs == {IdM, Rz90, Ry90, MulMM(Rx90, Rz90)}            \* arms separated along x, y, z (and a fourth orientation)
-UPoses == {<<IdM, Zero3>>, <<Rx90, <<3, -2, 1>>>>}
+UQs == {IdM, Rz90, Ry90}            \* arms separated along x, y, z
+UPoses == {<<IdM, Zero3>>}
 FluxNonConvex ==
   UNION {UNION {{Flux(Nm("TriangularMesh", "non-convex U prism", c[1]), <<UnionM(Q, UBoxes, g[1], g[2], P1)>>, CartChart(g[1], g[2]), RotB(Q, c[2], c[3]).lo, RotB(Q, c[2], c[3]).hi, FFF)
                   : c \in UCells} : Q \in UQs} : g \in UPoses}
@@ -445,9 +445,20 @@ FluxNonConvex ==
   \cup {Flux(Nm("TriangularMesh", "box with a notch", c[1]), <<UnionM(Q, NotchBoxes, IdM, Zero3, P1)>>, Id0, RotB(Q, c[2], c[3]).lo, RotB(Q, c[2], c[3]).hi, FFF)
           : Q \in {IdM, Ry90}, c \in {<<"inside a lip", <<-5, 3, -1>>, <<-3, 6, 2>>>>, <<"inside the other lip", <<3, 3, -1>>, <<5, 6, 2>>>>, <<"in the notch", <<-1, 3, -1>>, <<1, 6, 2>>>>,
                                      <<"across the notch bottom", <<-1, 1, -1>>, <<1, 4, 2>>>>, <<"across a lip end", <<3, 6, -1>>, <<5, 9, 2>>>>}}
+\* two wide plates (40 x 40 x 8) separated by a thin gap (4) and joined along one edge: whatever the direction of the ray used by an inside
+\* test, a ray to a point near the middle of the farther plate passes through the nearer plate first (three crossings), and the whole
+\* cell lies in that shadow (a cell cut by the oblique boundary of the shadow would only be unmeasurable)
+ClampBoxes == <<<<-20, -20, 2>>, <<20, 20, 10>>, <<-20, -20, -10>>, <<20, 20, -2>>, <<-20, -28, -10>>, <<20, -20, 10>>>>
+ClampCells == {<<"inside the plate at +z", <<-2, 1, 4>>, <<1, 4, 7>>>>, <<"inside the plate at -z", <<-2, 1, -7>>, <<1, 4, -4>>>>,
+               <<"across the inner face of the plate at +z", <<-2, 1, 0>>, <<1, 4, 4>>>>, <<"across the inner face of the plate at -z", <<-2, 1, -4>>, <<1, 4, 0>>>>,
+               <<"across the outer face of the plate at +z", <<-2, 1, 8>>, <<1, 4, 12>>>>, <<"across the outer face of the plate at -z", <<-2, 1, -12>>, <<1, 4, -8>>>>,
+               <<"in the gap between the plates", <<-2, 1, -1>>, <<1, 4, 1>>>>, <<"gap and both inner faces", <<-2, 1, -4>>, <<1, 4, 4>>>>}
+FluxClamp == UNION {{Flux(Nm("TriangularMesh", "non-convex clamp (two plates, thin gap)", c[1]), <<UnionM(Q, ClampBoxes, IdM, Zero3, P1)>>, Id0, RotB(Q, c[2], c[3]).lo, RotB(Q, c[2], c[3]).hi, FFF)
+                       : c \in ClampCells} : Q \in {IdM, Rx90, Ry90}}
+             \cup {Flux(Nm("TriangularMesh", "non-convex clamp (two plates, thin gap)", c[1]), <<UnionM(IdM, ClampBoxes, Rz90, <<1, -2, 3>>, P2)>>, CartChart(Rz90, <<1, -2, 3>>), c[2], c[3], FFF) : c \in ClampCells}
 CircNonConvex == {Circ(Nm("TriangularMesh", "non-convex U prism", "loop through both arms and the gap"), <<UnionM(IdM, UBoxes, IdM, Zero3, P1)>>, Id0, e)
                     : e \in {RectLoop(3, 1, -7, 7, 1, 4), RectLoop(2, 3, -1, 3, -7, 7), RectLoop(1, -4, 1, 8, -1, 3)}}
-MultiAndSite == FluxPairs \cup CircPairs \cup CircSite \cup FluxSite \cup FluxNonConvex \cup CircNonConvex
+MultiAndSite == FluxPairs \cup CircPairs \cup CircSite \cup FluxSite \cup FluxNonConvex \cup FluxClamp \cup CircNonConvex
 Candidates == IF Prop = "C14" THEN C14Flux \cup C14CircChart \cup CartLk \cup CartBig \cup ThinCells \cup MultiAndSite ELSE C01Cells \cup C01Points \cup ThinCells \cup HarmPts \cup MultiAndSite
 \* Conditioning of the measurement (not part of the premise; it only selects which instances are worth integrating with a
 \* fixed-order rule): the cell is not a thin slab, and a cell that touches a body is not much larger than the body
